@@ -174,6 +174,9 @@ def param_names(params):
 
 
 # ------------------------------------------------------------------------------------------- expressions
+SINK = None   # when a list: every usize addition / subtraction translated by arith() appends its no-overflow condition
+
+
 def arith(toks, env):
     """arithmetic over usize: atoms (`*`? ident | number) joined by + and - (left assoc).  env renames identifiers."""
     p = P(list(toks), "arithmetic expression")
@@ -198,8 +201,12 @@ def arith(toks, env):
         op = p.next()
         r = atom()
         if op == "+":
+            if SINK is not None:
+                SINK.append("(%s + %s <? W)" % (e, r))
             e = "S %s" % paren(e) if r == "1" else "%s + %s" % (e, r)
         elif op == "-":
+            if SINK is not None:
+                SINK.append("(%s <=? %s)" % (r, e))
             e = "%s - %s" % (e, r)
         else:
             raise TransError("arithmetic: unexpected operator `%s` in `%s`" % (op, " ".join(toks)))
@@ -312,6 +319,134 @@ def trans_structural(name, params, body, known):
     sig = " ".join("(%s : %s)" % (x, types.get(x, "nat")) for x in ps)
     return ("Fixpoint %s %s (t : term) : term :=\n  match t with\n  | Var i => %s\n  | Abs b => %s\n  | App l r => %s\n  end.\n"
             % (GNAME[name], sig, out["Var"], out["Abs"], out["App"]))
+
+
+def conj(cs):
+    cs = [c for c in cs if c != "true"]
+    return " && ".join(cs) if cs else "true"
+
+
+def with_sink(f):
+    """run f() collecting the no-overflow conditions of the arithmetic it translates"""
+    global SINK
+    old, SINK = SINK, []
+    try:
+        r = f()
+        return r, SINK
+    finally:
+        SINK = old
+
+
+def safe_structural(name, params, body, known):
+    """the companion predicate `<f>_safe W args t : bool`: true iff no usize addition performed by f on these inputs
+    reaches W and no subtraction goes below zero (same recursion as f; generated from the same source text)"""
+    what = "fn " + name + " (safety)"
+    ps = param_names(params)
+    p = P(body, what)
+    p.expect("match")
+    p.accept("*")
+    p.expect("self")
+    arms = parse_arms(p.block(), what)
+    out = {}
+    g = GNAME[name] + "_safe"
+    for pat, rhs in arms:
+        ctor = pat[0]
+        inner = [x for x in pat[2:-1] if x not in ("ref", "mut")]
+        if ctor == "Var":
+            out["Var"] = safe_exec(rhs, inner[0], ps, known, what)
+        elif ctor == "Abs":
+            q = P(strip_braces(rhs), what)
+            q.expect(inner[0], ".", name)
+            args, cs = with_sink(lambda: [arith(a, {}) for a in split_top(q.parens(), ",")])
+            out["Abs"] = conj(cs + ["%s W %s b" % (g, " ".join(paren(a) for a in args))])
+        elif ctor == "App":
+            q = P(strip_braces(rhs), what)
+            q.expect("let", "(")
+            names = []
+            while q.peek() != ")":
+                x = q.next()
+                if x not in ("ref", "mut", ","):
+                    names.append(x)
+            q.expect(")", "=", "*", "*", inner[0], ";")
+            parts = []
+            for nm, sub in zip(names, ("l", "r")):
+                q.expect(nm, ".", name)
+                args, cs = with_sink(lambda: [arith(a, {}) for a in split_top(q.parens(), ",")])
+                q.accept(";")
+                parts += cs + ["%s W %s %s" % (g, " ".join(paren(a) for a in args), sub)]
+            out["App"] = conj(parts)
+    types = {"rhs": "term"}
+    sig = " ".join("(%s : %s)" % (x, types.get(x, "nat")) for x in ps)
+    return ("Fixpoint %s (W : nat) %s (t : term) : bool :=\n  match t with\n  | Var i => %s\n  | Abs b => %s\n  | App l r => %s\n  end.\n"
+            % (g, sig, out["Var"], out["Abs"], out["App"]))
+
+
+def safe_exec(toks, ivar, params, known, what, cur="(Var i)"):
+    """the conjunction of the no-overflow conditions of the statements executed in a Var arm (branch-sensitive);
+    `cur` is the Gallina expression of the value `self` currently holds"""
+    env = {ivar: "i"}
+    p = P(strip_braces(toks), what + " Var arm")
+    cs = []
+    while not p.eof():
+        if p.peek() == "*" and p.peek(1) == ivar and p.peek(2) in ("+=", "-="):
+            p.next(); p.next()
+            op = p.next()
+            e = []
+            while not p.eof() and p.peek() != ";":
+                e.append(p.next())
+            p.accept(";")
+            v, c = with_sink(lambda: arith(e, env))
+            cs += c + (["(i + %s <? W)" % v] if op == "+=" else ["(%s <=? i)" % v])
+        elif p.accept("*", "self", "=", "Var"):
+            inner = p.parens()
+            v, c = with_sink(lambda: arith(inner, env))
+            p.accept(";")
+            cs += c
+            cur = "(Var (%s))" % v
+        elif p.peek() in params and p.peek(1) == "." and p.peek(2) == "clone_into":
+            cur = p.next()
+            p.expect(".", "clone_into")
+            p.parens()
+            p.accept(";")
+        elif p.accept("self", "."):
+            f = p.ident()
+            inner = p.parens()
+            args, c = with_sink(lambda: [arith(a, env) for a in split_top(inner, ",")])
+            p.accept(";")
+            cs += c + ["%s_safe W %s %s" % (GNAME.get(f, f), " ".join(paren(a) for a in args), cur)]
+            cur = "(%s %s %s)" % (GNAME.get(f, f), " ".join(paren(a) for a in args), cur)
+        elif p.accept("if"):
+            cond = []
+            while p.peek() != "{":
+                cond.append(p.next())
+            then = p.block()
+            els = p.block() if p.accept("else") else []
+            cs.append("(if %s then %s else %s)" % (boolean(cond, env), safe_exec(then, ivar, params, known, what, cur),
+                                                  safe_exec(els, ivar, params, known, what, cur)))
+        elif p.accept("match"):
+            scrut = []
+            while p.peek() != "{":
+                scrut.append(p.next())
+            sq = P(scrut, what)
+            lhs = sq.parens() if sq.peek() == "(" else [sq.next()]
+            sq.expect(".", "cmp")
+            rhs = [x for x in sq.parens() if x != "&"]
+            a, b = arith(lhs, env), arith(rhs, env)
+            res = {}
+            for pat, body in parse_arms(p.block(), what):
+                key = {"Equal": "Eq", "Greater": "Gt", "Less": "Lt"}.get(pat[-1], "_")
+                val = safe_exec(body, ivar, params, known, what, cur)
+                if key == "_":
+                    for k in ("Eq", "Gt", "Lt"):
+                        res.setdefault(k, val)
+                else:
+                    res[key] = val
+            cs.append("(match %s ?= %s with Eq => %s | Gt => %s | Lt => %s end)" % (a, b, res["Eq"], res["Gt"], res["Lt"]))
+        elif p.accept(";"):
+            pass
+        else:
+            raise TransError("%s: cannot translate statement starting `%s`" % (what, " ".join(p.rest()[:8])))
+    return conj(cs)
 
 
 def strip_braces(toks):
@@ -716,6 +851,12 @@ def translate(src):
     out.append(trans_structural("_apply", *fns["_apply"], known={"update_free_variables"}))
     out.append("(** apply: [Err(NotAbs)] leaves the receiver untouched (returned next to the error) *)")
     out.append(trans_apply(*fns["apply"]))
+    out.append("(** machine arithmetic: [f_safe W .. t] is true iff, on these inputs, no usize addition performed by f reaches W\n"
+               "    and no subtraction goes below zero - generated from the same source text as f, with the same recursion *)")
+    out.append(safe_structural("update_free_variables", *fns["update_free_variables"], known=set()))
+    out.append(safe_structural("_apply", *fns["_apply"], known={"update_free_variables"}))
+    out.append("Definition apply_safe (W : nat) (t rhs : term) : bool :=\n  match t with Abs _ => apply_rec_safe W rhs %s t | _ => true end.\n"
+               % re.search(r"apply_rec rhs (\S+) t with", out[-4] if False else trans_apply(*fns["apply"])).group(1))
     ev, inc = trans_eval(*fns["eval"])
     out.append("(** eval: only called on [App (Abs _) _]; the counter is incremented by %d at the call sites *)" % inc)
     out.append(ev)
